@@ -79,6 +79,19 @@ CHECKS = {
    note='Trusted: clang front end; correctly rounded host printf and C literal parsing; union same-size type punning. '
         'Not decided: the run-time value the C compiler assigns to the literal.',
    ref='DESIGN.md 4/C07'),
+ 'C08': dict(
+   technique='symbolic partial evaluation of the four LEB128 decoders for every encoding length with term decomposition of the decoded value; AST use-context rule for decoder return values; table/enum agreement and branch-sensitive must-analysis of the section dispatcher; call-graph effect summary of the custom-section reader; partial evaluation of the data-segment reader per kind; allocation and sibling-bound rules',
+   text='For all byte values and every valid length n (1..5 / 1..10) the decoders return n, stop at the first byte without continuation bit '
+        'and produce exactly OR_i((b_i & 0x7F) << 7i) truncated to the width, sign-extended from bit 7n-1 iff 7n < width (decided on the '
+        'symbolic value, not sampled). At all 65 call sites the returned byte count is used only as a truth value, so padding cannot leak '
+        'into decoded values. The reader table has the right reader for ids 0..12, success after a reader requires consumed == declared '
+        'size (start snapshot taken before the call), unknown ids are skipped by the declared size. Code reachable from the custom-section '
+        'reader writes only module->debugSections / functionNames and the name section needs the debug option. Data segment kind 0 yields '
+        'the record of kind 2 with memory 0; kind 1 is passive; other kinds are rejected. The module record is calloc-ed and loops over '
+        'module containers are bounded by the sibling count.',
+   note='Not decided: equality of whole outputs for every pair of equivalent encodings (value-level), behaviour on over-long or otherwise invalid '
+        'encodings, element-segment kinds beyond what the reader supports. The function hash depends on body bytes by design (file order only).',
+   ref='DESIGN.md 4/C08'),
  'C09': dict(
    technique='structured lock-region must-analysis (held/free facts per mutex with loop fixpoint) of the writer pool in the HAS_PTHREAD=1 configuration; call-graph effect analysis of everything reachable from the worker entry (stores by storage class, non-reentrant callees, const casts); path enumeration of the static/dynamic split loops; typed-AST equality of every template across formatting modes; partial evaluation of File/String twin emitters on argument grids derived from parameter types',
    text='Worker and producer: every access to writer.task / writer.done / the shared task record happens with the writer mutex held, '
